@@ -1,4 +1,5 @@
 import Indi.Properties.C16
+import Indi.Properties.Decisions
 #print axioms Indi.Cli.C16_events
 #print axioms Indi.Cli.C16_deliveries
 #print axioms Indi.Cli.C16_removed
@@ -7,3 +8,4 @@ import Indi.Properties.C16
 #print axioms Indi.Cli.C16_chain
 #print axioms Indi.Cli.C16_old_is_previous_new
 #print axioms Indi.Cli.C16_chain_always
+#print axioms Indi.Decisions.callbackAccepts_agrees
